@@ -12,3 +12,5 @@ import ParryModel.C02.Theorems
 #print axioms C02.halfspace_verdicts_mirrored
 #print axioms C02.ballBall_verdicts
 #print axioms C02.ballBall_verdicts_pred0
+#print axioms C02.intersectionTestCuboidCuboid_sound
+#print axioms C02.satEdgeAxes_spec
